@@ -106,6 +106,7 @@ type Exec struct {
 	fileN, fileBytes int
 	mutexes  map[string]*mutexState
 	builders map[string]Value
+	usedNondet bool
 	env      map[string]*big.Int
 	envMemo  map[int]*Term
 	nTrivial    int
